@@ -189,7 +189,7 @@ theorem C02_exec_output_legal (d : Nat) (nodes : List Node) (ctx : Ctx) (st : St
     (h : exec d nodes ctx st = .ok o) : ∀ l ∈ o.out, legalLine l = true := by
   have cv : ∀ c, allCmdsL niq c = allLinesL noIgnoreLine c := fun c => allCmdsL_text noIgnoreLine c
   exact (exec_hereditary hspec_legal d nodes ctx st (by rw [cv]; exact hnodes) (fun c hc => by rw [cv]; exact hst c hc)
-    (fun p text nodes hr hp => by rw [cv]; exact hfs p text nodes hr hp)).outs o h
+    (fun p text nodes hr hp => by rw [cv]; exact hfs p text nodes hr hp) trivial).outs o h
 
 /-- `Compiler.compile`: a program without IGNORE lines (in the source and in the files it can import) compiles to legal lines only -/
 theorem C02_compile_output_legal (opts : Opts) (fs : FS) (file : Option Path) (src : Source)
@@ -219,7 +219,7 @@ theorem C02_compile_output_legal (opts : Opts) (fs : FS) (file : Option Path) (s
 theorem C02_no_duckling_keyword (d : Nat) (nodes : List Node) (ctx : Ctx) (st : St) (o : Out)
     (hnodes : allCmdsL knownLine nodes = true) (hst : StOk knownLine st) (hfs : FSOk knownLine ctx.fs)
     (h : exec d nodes ctx st = .ok o) : ∀ l ∈ o.out, plainLine l = true :=
-  (exec_hereditary hspec_plain d nodes ctx st hnodes hst hfs).outs o h
+  (exec_hereditary hspec_plain d nodes ctx st hnodes hst hfs trivial).outs o h
 
 theorem C02_compile_no_duckling_keyword (opts : Opts) (fs : FS) (file : Option Path) (src : Source)
     (out : List Str) (warns : List Warn) (prints : List Print) (vars : List (Str × Val))
